@@ -55,9 +55,11 @@ uint64_t rand_draws_since(uint64_t seed, uint64_t limit);
 // executes the scenario under the currently installed coin; returns per slot the retained (item, weight) lists.
 // With stride_log != nullptr (probe run, rand seeded with probe_seed) it records, for every draw from random_utils::rand,
 // the stride of the down-sampling merge that made it (ratio of the two k values at the time of the merge).
+struct QueryGrid { bool on = false; V lo = 0, hi = 0; std::vector<std::vector<uint64_t>> le, lt; };  // n * get_rank(q) per slot and query
+
 template <typename SK>
 void execute(const Scenario& sc, std::vector<std::vector<std::pair<V, uint64_t>>>& out, std::vector<uint64_t>& ns,
-             std::vector<int>* stride_log = nullptr, uint64_t probe_seed = 0) {
+             std::vector<int>* stride_log = nullptr, uint64_t probe_seed = 0, QueryGrid* grid = nullptr) {
   std::vector<SK> sk;
   for (int i = 0; i < sc.nslots; ++i) sk.push_back(make<SK>(sc.fam, sc.ks[i]));
   for (const auto& st : sc.steps) {
@@ -80,6 +82,20 @@ void execute(const Scenario& sc, std::vector<std::vector<std::pair<V, uint64_t>>
     for (auto it = sk[i].begin(); it != sk[i].end(); ++it) {
       out[i].emplace_back((*it).first, static_cast<uint64_t>((*it).second));
       if (++guard > 100000) break;
+    }
+  }
+  // the ranks the sketch itself answers (sorted view / per-level search), as integer weights n * rank
+  if (grid && grid->on) {
+    size_t nq = static_cast<size_t>(grid->hi - grid->lo + 1);
+    grid->le.assign(sc.nslots, std::vector<uint64_t>(nq, 0)); grid->lt.assign(sc.nslots, std::vector<uint64_t>(nq, 0));
+    for (int i = 0; i < sc.nslots; ++i) {
+      if (sk[i].is_empty()) continue;
+      double dn = static_cast<double>(sk[i].get_n());
+      for (size_t q = 0; q < nq; ++q) {
+        V v = grid->lo + static_cast<V>(q);
+        grid->le[i][q] = static_cast<uint64_t>(std::llround(sk[i].get_rank(v, true) * dn));
+        grid->lt[i][q] = static_cast<uint64_t>(std::llround(sk[i].get_rank(v, false) * dn));
+      }
     }
   }
 }
@@ -148,6 +164,8 @@ void run_family(const Scenario& sc0, const Case& cs) {
   }
   // accumulate
   std::vector<std::vector<uint64_t>> acc_le(sc.nslots, std::vector<uint64_t>(nq, 0)), acc_lt(sc.nslots, std::vector<uint64_t>(nq, 0));
+  std::vector<std::vector<uint64_t>> racc_le(sc.nslots, std::vector<uint64_t>(nq, 0)), racc_lt(sc.nslots, std::vector<uint64_t>(nq, 0));
+  QueryGrid grid; grid.on = true; grid.lo = qlo; grid.hi = qhi;
   uint64_t outcomes = 0;
   for (uint64_t seed : seeds) {
     for (uint64_t bits = 0; bits < (1ull << f); ++bits) {
@@ -156,7 +174,8 @@ void run_family(const Scenario& sc0, const Case& cs) {
       vf::coin_script(script, 0);
       vf::rand_seed(seed);
       std::vector<std::vector<std::pair<V, uint64_t>>> out; std::vector<uint64_t> ns;
-      execute<SK>(sc, out, ns);
+      execute<SK>(sc, out, ns, nullptr, 0, &grid);
+      for (int sl = 0; sl < sc.nslots; ++sl) for (size_t q = 0; q < nq; ++q) { racc_le[sl][q] += grid.le[sl][q]; racc_lt[sl][q] += grid.lt[sl][q]; }
       VF_CHECK(vf::coin_flips() == f, "flip-count-depends-on-outcome", fam_name(sc.fam) << ": outcome " << bits << " consumed " << vf::coin_flips() << " flips, the all-zero outcome " << f);
       if (!strides.empty()) VF_CHECK(rand_draws_since(seed, 64) == strides.size(), "rand-draw-count", "stride draws " << rand_draws_since(seed, 64) << " expected " << strides.size());
       for (int s = 0; s < sc.nslots; ++s) {
@@ -180,9 +199,13 @@ void run_family(const Scenario& sc0, const Case& cs) {
     for (size_t q = 0; q < nq; ++q) {
       uint64_t lt = run; run += cnt[q]; uint64_t le = run;
       VF_CHECK_K(acc_le[s][q] == outcomes * le && acc_lt[s][q] == outcomes * lt, "rank-biased",
-                 std::string("C08|") + fam_name(sc.fam) + "|rank biased over coin outcomes",
+                 std::string("C08|") + fam_name(sc.fam) + "|rank-biased-over-coin-outcomes",
                  fam_name(sc.fam) << ": slot " << s << " query " << (qlo + static_cast<V>(q)) << ": sum over " << outcomes << " outcomes of weight<=q is " << acc_le[s][q]
                  << " expected " << outcomes * le << " (true count " << le << "); weight<q " << acc_lt[s][q] << " expected " << outcomes * lt << "; f=" << f);
+      VF_CHECK_K(racc_le[s][q] == outcomes * le && racc_lt[s][q] == outcomes * lt, "get-rank-biased",
+                 std::string("C08|") + fam_name(sc.fam) + "|get_rank-biased-over-coin-outcomes",
+                 fam_name(sc.fam) << ": slot " << s << " query " << (qlo + static_cast<V>(q)) << ": sum over " << outcomes << " outcomes of n*get_rank(q, inclusive) is " << racc_le[s][q]
+                 << " expected " << outcomes * le << "; exclusive " << racc_lt[s][q] << " expected " << outcomes * lt << "; f=" << f);
     }
   }
   vf::count("outcomes", outcomes);
